@@ -117,7 +117,9 @@ def eval_case(case):
 
 
 DECODE = [("", "production"), (".n", "nightly"), (".nightly", "nightly"), (".t", "test"), (".test", "test"), (".ci", "ci"),
-          (".d", "development"), (".x", None), (".nightlyx", None), (".dd", None), (".production", None), (".tt", None)]
+          (".d", "development"), (".x", None), (".nightlyx", None), (".dd", None), (".production", None), (".tt", None),
+          # the full type names that are NOT documented suffixes, and near misses of the documented ones
+          (".development", None), (".dev", None), (".testing", None), (".c", None), (".cii", None), (".night", None), (".prod", None)]
 
 
 def eval_decode(case):
